@@ -71,7 +71,7 @@ Devs(cls) ==
          {<<"bits", "i:3">>, <<"integer", "i:2">>, <<"symmetric", "i:1">>, <<"keep_negative", "b:0">>, <<"alpha", "f:2.0">>,
           <<"use_stochastic_rounding", "b:1">>, <<"scale_axis", "i:0">>, <<"qnoise_factor", "f:0.5">>, <<"use_ste", "b:0">>,
           <<"use_variables", "b:1">>, <<"elements_per_scale", "i:2">>, <<"min_po2_exponent", "i:1">>, <<"max_po2_exponent", "i:-3">>,
-          <<"scale_axis", "l:0 1">>, <<"elements_per_scale", "l:2 3">>}
+          <<"scale_axis", "l:0 1">>, <<"elements_per_scale", "l:2 3">>, <<"post_training_scale", "a:0.5">>}
     [] cls = "bernoulli" -> {<<"alpha", "f:2.0">>, <<"temperature", "f:1.5">>, <<"use_real_sigmoid", "b:0">>}
     [] cls = "ternary" -> {<<"alpha", "f:2.0">>, <<"threshold", "f:0.75">>, <<"threshold", "f:0.0">>, <<"use_stochastic_rounding", "b:1">>,
                            <<"number_of_unrolls", "i:1">>}
@@ -112,6 +112,7 @@ Valid(cls, o) ==
   /\ (Has(o, "elements_per_scale") /\ o.elements_per_scale # "None") => (o.alpha = "s:auto_po2" /\ o.scale_axis # "None")
   /\ (Has(o, "elements_per_scale") /\ o.elements_per_scale = "l:2 3") => o.scale_axis = "l:0 1"     \* one entry per scale axis
   /\ (Has(o, "elements_per_scale") /\ o.elements_per_scale = "i:2") => o.scale_axis = "i:0"
+  /\ (Has(o, "post_training_scale") /\ o.post_training_scale # "None") => o.alpha = "s:auto_po2"     \* ValueError otherwise
   /\ (Has(o, "min_po2_exponent") /\ (o.min_po2_exponent # "None" \/ o.max_po2_exponent # "None")) => o.alpha = "s:auto_po2"
   /\ (cls \in {"ternary", "stochastic_ternary"} /\ IsAuto(o)) => o.threshold = "None"
   /\ (cls = "stochastic_ternary") => IsAuto(o)              \* training branch asserts a string alpha
